@@ -260,7 +260,7 @@ def run(tier, seed):
                                     theorem=pg['theorems'], problems=pg['problems']), False))
     ncases = 16 if tier == 'quick' else 96
     cases = [seed * 100000 + 12000 + i for i in range(ncases)]
-    for r in core.run_cases(run_case, cases, timeout=1500 if tier == 'quick' else 6000):
+    for r in core.run_cases(run_case, core.with_corpus(PID, cases), timeout=1500 if tier == 'quick' else 6000):
         rep.merge(r)
     rep.obligation('hypotheses of Sched.Pool.fs_confluence hold on every audited pool call (no task writes a file another task of the '
                    'same call reads or writes)', not any(v[0].get('kind') == 'tasks-not-independent' for v in rep.violations))
